@@ -9,8 +9,10 @@ use serde_json::{Value, json};
 use crate::util::{Args, Out, Rng, catch, par_map};
 
 // the last six put the word into a run of hyphenated words, next to compounds the dictionary lists with their hyphens
-const TEMPLATES: [&str; 12] = ["{}", "We saw {} today.", "{} is here.", "It was, {} !", "Ünïcödé 😀 then {} again.", "One line.\n\nThen {} there.",
-    "a built-in-{} call", "It ran back-to-back-{} twice.", "{}-built-in code", "The add-on-{} part.", "well-{}-known", "A blue-collar-{}."];
+// ... and the last two put it right before a full stop
+const TEMPLATES: [&str; 14] = ["{}", "We saw {} today.", "{} is here.", "It was, {} !", "Ünïcödé 😀 then {} again.", "One line.\n\nThen {} there.",
+    "a built-in-{} call", "It ran back-to-back-{} twice.", "{}-built-in code", "The add-on-{} part.", "well-{}-known", "A blue-collar-{}.",
+    "So am {}.", "We will go with {}. Then we rest."];
 
 fn dname(d: Option<Dialect>) -> &'static str {
     match d { None => "none", Some(Dialect::American) => "American", Some(Dialect::British) => "British",
@@ -87,6 +89,12 @@ pub fn main(a: &Args) {
         (0..sample).map(|i| (i * step + off).min(words.len() - 1)).collect()
     };
     let mut jobs: Vec<(Vec<char>, &'static str, usize, usize)> = Vec::new();
+    // every one-letter entry right before a full stop (where a letter and a period look like an initialism)
+    for w in words.iter().filter(|w| w.len() == 1) {
+        jobs.push((w.clone(), "listed", 0, 12));
+        jobs.push((w.clone(), "listed", 1, 13));
+        if w[0].is_lowercase() { jobs.push((w.clone(), "upper", 0, 12)); }
+    }
     for (k, &wi) in chosen.iter().enumerate() {
         let w = &words[wi];
         for d in 0..4 {
